@@ -3,6 +3,7 @@ module ebuverif
 go 1.25.1
 
 require (
+	github.com/ahimsalabs/durable-streams-go v0.0.0-20251220072926-9430608b4163
 	github.com/jilio/ebu v0.0.0
 	github.com/jilio/ebu/otel v0.0.0
 	github.com/jilio/ebu/stores/durablestream v0.0.0
@@ -16,6 +17,7 @@ require (
 	github.com/dustin/go-humanize v1.0.1 // indirect
 	github.com/go-logr/logr v1.4.3 // indirect
 	github.com/go-logr/stdr v1.2.2 // indirect
+	github.com/go4org/hashtriemap v0.0.0-20251130024219-545ba229f689 // indirect
 	github.com/google/uuid v1.6.0 // indirect
 	github.com/remyoudompheng/bigfft v0.0.0-20230129092748-24d4a6f8daec // indirect
 	go.opentelemetry.io/auto/sdk v1.1.0 // indirect
